@@ -81,10 +81,19 @@ fn classify(r: &mut CaseResult, script: &Script, obs: &Observation) {
         .any(|(_, _, st, _)| matches!(st, ReqState::Done(Outcome::ErrorResponse { frames, .. }) if !frames.is_empty()));
     let cancels = obs.requests.iter().any(|(_, _, st, _)| *st == ReqState::Cancelled);
     let multi_changed = obs.transcript.iter().any(|t| matches!(t, Tx::Changed { names, .. } if names.len() >= 2));
-    let split_idle_reply = obs.transcript.iter().any(|t| match t {
-        Tx::Read { pos, .. } => obs.transcript.iter().any(|c| matches!(c, Tx::Changed { start, end, .. } if start < pos && pos < end)),
-        _ => false,
-    });
+    let changed_ranges: Vec<(usize, usize)> = obs
+        .transcript
+        .iter()
+        .filter_map(|t| match t {
+            Tx::Changed { start, end, .. } => Some((*start, *end)),
+            _ => None,
+        })
+        .collect();
+    let split_idle_reply = !changed_ranges.is_empty()
+        && obs.transcript.iter().any(|t| match t {
+            Tx::Read { pos, .. } => changed_ranges.iter().any(|(start, end)| start < pos && pos < end),
+            _ => false,
+        });
     r.class_if(concurrent, "requests_pending_at_once");
     r.class_if(noidle_race, "noidle_crossed_idle_reply");
     r.class_if(direct, "request_inside_100ms_window");
